@@ -9,6 +9,14 @@ from reamber.osu.OsuSampleSet import OsuSampleSet
 from reamber.osu.lists.OsuSampleList import OsuSampleList
 
 
+def _romanise(text: str) -> str:
+    """ASCII form of a text for the one-line Title / Artist fields.
+
+    unidecode turns the Unicode line and paragraph separators into line breaks, which must not end the line.
+    """
+    return unidecode(text).replace("\r", " ").replace("\n", " ")
+
+
 class OsuMapMode:
     """This determines the mode of the map.
 
@@ -194,9 +202,9 @@ class OsuMapMeta(
             f"TimelineZoom: {self.timeline_zoom:g}",
             "",
             "[Metadata]",
-            f"Title:{unidecode(self.title)}",
+            f"Title:{_romanise(self.title)}",
             f"TitleUnicode:{self.title_unicode}",
-            f"Artist:{unidecode(self.artist)}",
+            f"Artist:{_romanise(self.artist)}",
             f"ArtistUnicode:{self.artist_unicode}",
             f"Creator:{self.creator}",
             f"Version:{self.version}",
